@@ -142,6 +142,7 @@ def drive(MC, loop, P, K, cut_exc, sched, now_units, configure=None):
         trace.append(("close", -1, now_units()))
         mgr.close()
     sched(do_close)
+    drive.last_close = do_close
     return trace, transports, task, mgr
 
 
@@ -197,3 +198,28 @@ def analyse_c18(trace, max_delay, threshold, sleep_sec, scale, holds, mn, mx):
                 if not armed and not holds(t - pending_loss_t <= 0):
                     out.append(("reconnect-delayed-without-reason", f"event #{k}: attempt {i} after a single loss is delayed"))
     return out
+
+
+class after_nth_handle:
+    """context manager: calls fn() right after the n-th event-loop handle (callback / timer / task step) has run - i.e. between
+    two consecutive callbacks of the loop, wherever they are. Works for any loop that runs asyncio.Handle objects."""
+    def __init__(self, n, fn):
+        self.n, self.fn, self.count = n, fn, 0
+
+    def __enter__(self):
+        import asyncio.events as ev
+        self._ev = ev
+        self._orig = ev.Handle._run
+        me = self
+
+        def _run(handle):
+            r = me._orig(handle)
+            me.count += 1
+            if me.n is not None and me.count == me.n:
+                me.fn()
+            return r
+        ev.Handle._run = _run
+        return self
+
+    def __exit__(self, *a):
+        self._ev.Handle._run = self._orig
